@@ -41,6 +41,12 @@ def gen(rng, tier, i):
         ci = sc.add_http_connector("m%d" % k)
         ci["server"]["default_ops"] = [op("recv_http_head", label="upreq"), send(b"HTTP/1.1 200 OK\r\n\r\n"), op("shutdown"), op("recv_eof", timeout_ms=30000)]
         members.append(ci)
+    refusing = None
+    if n >= 2 and rng.random() < 0.25:
+        # one member whose upstream refuses every request: it is still selected in its turn, the request fails, and the
+        # record names it - no other member is involved
+        refusing = rng.choice(members)
+        refusing["server"]["default_ops"] = [op("recv_http_head", label="upreq"), send(b"HTTP/1.1 %s\r\nContent-Length: 0\r\n\r\n" % rng.choice([b"403 Forbidden", b"502 Bad Gateway"])), op("shutdown"), op("recv_eof", timeout_ms=30000)]
     decoy = sc.add_http_connector("decoy")
     decoy["server"]["default_ops"] = [op("recv_http_head", label="upreq"), send(b"HTTP/1.1 200 OK\r\n\r\n"), op("shutdown"), op("recv_eof", timeout_ms=30000)]
     key = None
@@ -123,7 +129,7 @@ def gen(rng, tier, i):
         t += 400  # the next burst starts only after this one is long finished
     sc.api_call("hist", "GET", "/api/history", start_ms=t + 3000)
     sc.meta = {"cls": "%s/n%d/%s" % (algo, n, mode), "cfgkey": "%s/n%d/%s/%s/%d" % (algo, n, mode, key and key[1], total), "algo": algo, "n": n, "reqs": reqs,
-               "key": key and key[1], "bursts": burst_sizes, "keep_ops": True, "inner": inner_names}
+               "key": key and key[1], "bursts": burst_sizes, "keep_ops": True, "inner": inner_names, "refusing": refusing and refusing["name"]}
     sc.max_ms = t + 60000
     return sc.plan(want_events=False)
 
@@ -247,4 +253,4 @@ def oracle(plan, out):
 
 def probes(plan, out):
     meta = plan["meta"]
-    return {"nontrivial": meta["n"] >= 2 and len(meta["reqs"]) >= 2 * meta["n"], "concurrent_burst": any(b > 1 for b in meta["bursts"]), "hash": meta["algo"] == "hash", "random": meta["algo"] == "random", "nested": bool(meta.get("inner"))}
+    return {"nontrivial": meta["n"] >= 2 and len(meta["reqs"]) >= 2 * meta["n"], "concurrent_burst": any(b > 1 for b in meta["bursts"]), "hash": meta["algo"] == "hash", "random": meta["algo"] == "random", "nested": bool(meta.get("inner")), "refusing_member": bool(meta.get("refusing"))}
